@@ -5,11 +5,16 @@ for f in sys.argv[1:]:
     s=r['scenario']
     print('==',f)
     print(' ',r['property'],r['oracle'],r['class'])
-    print('  detail:',r['detail'][:300])
+    print('  detail:',r['detail'][:400])
     if r['world']=='uw':
         print('  uid',s['uid'],'umask',oct(s['umask']),'dst',s['dst'],'allow',s.get('allow'))
         for a in s['archives']:
             print('   fmt',a['format'],'reader',a['reader'], 'raw',a.get('raw'),'cut',a.get('cut_tar'))
             for e in a['entries']: print('     ',e)
+    elif r['world']=='pw':
+        print('  uid',s['uid'],'umask',oct(s['umask']),'opts',s['opts'],'history',s.get('history'),'conc',s.get('conc'),'chdirs',s.get('chdirs'),'tape',s.get('tape'))
+        print('  rules',repr(s.get('rules')))
+        for n in s['tree']: print('    ',n)
+        for n in s['runs']: print('   run',n)
     else:
         print(json.dumps(s,indent=1)[:3000])
